@@ -311,24 +311,64 @@ class time_limit(object):
         return False
 
 
-def run_order(fi, mods):
+def make_decorator(m):
+    """the decorator OBJECT of a modifier: built once, it can then be applied to
+    any number of functions (a module keeping `defaults_kwo = autokwoargs(exceptions=[...])`)"""
+    tag, p = m
+    if tag == 'kwo':
+        return modifiers.kwoargs(*[NAMES[x] for x in p])
+    if tag == 'pos':
+        return modifiers.posoargs(*[NAMES[x] for x in p])
+    if tag == 'start':
+        return modifiers.kwoargs(start=NAMES[p])
+    if tag == 'end':
+        return modifiers.posoargs(end=NAMES[p])
+    if tag == 'auto':
+        if p:
+            return modifiers.autokwoargs(exceptions=[NAMES[x] for x in p])
+        return modifiers.autokwoargs()
+    ret, anns = p
+    kw = dict((NAMES[k], v) for k, v in anns)
+    if ret is None:
+        return modifiers.annotate(**kw)
+    return modifiers.annotate(ret, **kw)
+
+
+class Bank(object):
+    """decorator objects built once per modifier and handed out again on every use"""
+    def __init__(self):
+        self.objs = {}
+        self.uses = {}
+
+    def get(self, m):
+        if m not in self.objs:
+            self.objs[m] = make_decorator(m)
+        self.uses[m] = self.uses.get(m, 0) + 1
+        return self.objs[m]
+
+
+def run_order(fi, mods, bank=None):
     """apply the modifiers (application order) to a fresh function; returns
-    None (not admissible) or (w, sigtools enc, inspect enc)"""
+    None (not admissible) or (w, sigtools enc, inspect enc).  With a bank the
+    decorator objects are taken from it (reused) instead of built afresh."""
     desc = FUNCS[fi]
     obj = make_func(desc)
     try:
         for m in mods:
-            obj = apply_modifier(obj, m)
+            if bank is not None:
+                obj = bank.get(m)(obj)
+            else:
+                obj = apply_modifier(obj, m)
     except ValueError:
         return None
     return obj
 
 
-def order_case(fi, pool, shapes, idxs):
+def order_case(fi, pool, shapes, idxs, bank=None):
     """one ordered application list on a fresh function, under a time guard"""
     try:
         with time_limit(4.0):
-            c = _order_case(fi, pool, shapes, idxs)
+            c = _order_case(fi, pool, shapes, idxs, bank)
     except _Timeout:
         return {'adm': True, 'ans': (2, 0, 0), 'broken': 'does not terminate (stopped after 4 s)', 'str': '?'}
     except RecursionError:
@@ -344,9 +384,9 @@ def order_case(fi, pool, shapes, idxs):
     return c
 
 
-def _order_case(fi, pool, shapes, idxs):
+def _order_case(fi, pool, shapes, idxs, bank=None):
     mods = [pool[i] for i in idxs]
-    w = run_order(fi, mods)
+    w = run_order(fi, mods, bank)
     if w is None:
         return {'adm': False, 'ans': (0, 0, 0)}
     ssig = sigtools.signature(w)
@@ -1387,6 +1427,173 @@ def _replay_falsy(r):
     return None
 
 
+
+# ----------------------------------------------------------------- part 6: decorator objects used again
+# The decorators of a session are OBJECTS built once (Bank) and applied again and
+# again: to fresh copies of one function in every order of a set, to the same
+# function twice, to different functions in turn.  Repeated use must not change
+# the result: every application gives what the same application gives with
+# decorators built afresh for it (admissibility, both signatures, every call).
+# The answers obtained with the reused objects also go to the model (run_mods).
+_FRESH_ORDER = {}
+
+
+def fresh_order(fi, mods):
+    key = (fi, tuple(mods))
+    if key not in _FRESH_ORDER:
+        _FRESH_ORDER[key] = order_case(fi, list(mods), call_shapes(FUNCS[fi]), tuple(range(len(mods))))
+    return _FRESH_ORDER[key]
+
+
+def case_view(c):
+    return (c['adm'], c['ans'], c.get('sig'), c.get('isig'), c.get('real'), c.get('broken'), c.get('upg'))
+
+
+def show_case(c):
+    if not c['adm']:
+        return 'ValueError (not admissible)'
+    if 'sig' not in c:
+        return c.get('broken') or '?'
+    return c['str'] + (' [%s]' % c['broken'] if c.get('broken') else '')
+
+
+def run_session(session):
+    """session: [(function index, modifiers in application order)] sharing one
+    Bank.  -> [(case with the reused objects, case with fresh ones, uses before)]"""
+    bank = Bank()
+    out = []
+    for fi, mods in session:
+        mods = [tuple(m) for m in mods]
+        before = dict(bank.uses)
+        c = order_case(fi, mods, call_shapes(FUNCS[fi]), tuple(range(len(mods))), bank)
+        out.append((c, fresh_order(fi, mods), before))
+    return out
+
+
+def reuse_finding(session, k, c, f, before):
+    fi, mods = session[k]
+    mods = [tuple(m) for m in mods]
+    if case_view(c) == case_view(f):
+        return None
+    used = ['%s (applied %d time%s before)' % (show_mod(m), before[m], '' if before[m] == 1 else 's')
+            for m in dict.fromkeys(mods) if before.get(m)]
+    detail = ''
+    if c['adm'] and f['adm'] and c.get('sig') == f.get('sig') and c.get('real') != f.get('real') \
+            and c.get('real') is not None and f.get('real') is not None:
+        shapes = call_shapes(FUNCS[fi])
+        j = [i for i in range(len(shapes)) if c['real'][i] != f['real'][i]][0]
+        a, kw = shapes[j]
+        detail = '; call args=%s kwargs=%s gives %s instead of %s' % (
+            list(a), dict((NAMES[x], v) for x, v in kw), c['real'][j], f['real'][j])
+    return ('C18:reuse', 'repeated use of a decorator object changes the result: %s gives %s when its decorators are '
+            'objects that were used before [%s], and %s when they are built afresh%s' % (
+                describe_order(fi, mods), show_case(c), '; '.join(used) or 'first use in this session',
+                show_case(f), detail))
+
+
+def reuse_sessions(ctx):
+    rng = ctx.rng('reuse')
+    out = []
+    for fi, desc in enumerate(FUNCS):
+        pool = pool_for(desc)
+        n = len(pool)
+        pairs = list(itertools.combinations(range(n), 2))
+        triples = list(itertools.combinations(range(n), 3))
+        sets = [(i,) for i in range(n)]
+        sets += rng.sample(pairs, min(len(pairs), 14 if ctx.quick else 150))
+        sets += rng.sample(triples, min(len(triples), 3 if ctx.quick else 40))
+        twice = [(i, i) for i in range(n)]
+        sets += twice if not ctx.quick else rng.sample(twice, min(len(twice), 6))
+        for idxs in sets:
+            # every order of the set, one after the other, then the first order again
+            perms = sorted(set(itertools.permutations(idxs)))
+            out.append([(fi, tuple(pool[i] for i in p)) for p in perms + [perms[0]]])
+    # one decorator object applied to all the functions in turn (it is not admissible for all of them)
+    allmods = []
+    for desc in FUNCS:
+        for m in pool_for(desc):
+            if m not in allmods:
+                allmods.append(m)
+    for m in allmods:
+        for _ in range(1 if ctx.quick else 4):
+            order = list(range(len(FUNCS)))
+            rng.shuffle(order)
+            out.append([(fi, (m,)) for fi in order])
+    # mixed sessions: several functions, several decorators, shared where they coincide
+    for _ in range(30 if ctx.quick else 800):
+        sess = []
+        for _ in range(rng.choice([5, 6, 8])):
+            fi = rng.randrange(len(FUNCS))
+            pool = pool_for(FUNCS[fi])
+            sess.append((fi, tuple(rng.choice(pool if rng.random() < 0.6 else allmods)
+                                   for _ in range(rng.choice([1, 1, 2])))))
+        out.append(sess)
+    return out
+
+
+def part_reuse(ctx, rep):
+    sessions = reuse_sessions(ctx)
+    n_eval = 0
+    n_apps = 0
+    n_reused = 0
+    per_func = {}
+    reported = 0
+    for sess in sessions:
+        res = run_session(sess)
+        rep.distinct.add(('reuse', tuple(sess)))
+        for k, (c, f, before) in enumerate(res):
+            fi, mods = sess[k]
+            n_apps += 1
+            n_eval += 1 + (len(call_shapes(FUNCS[fi])) if c['adm'] else 0)
+            if any(before.get(m) for m in mods):
+                n_reused += 1
+            per_func.setdefault(fi, {})[(tuple(mods), c['ans'])] = c
+            fd = reuse_finding(sess, k, c, f, before)
+            if fd is not None:
+                reported += 1
+                rep.violation(fd[0], fd[1], {'part': 'reuse', 'key': fd[0],
+                                             'session': [[fi_, [list(m) for m in ms]] for fi_, ms in sess[:k + 1]]})
+                break                       # later applications of this session use the same disturbed objects
+    rep.coverage['reuse_sessions'] = len(sessions)
+    rep.coverage['reuse_applications'] = n_apps
+    rep.coverage['reuse_applications_with_an_object_used_before'] = n_reused
+    # the answers obtained with reused objects against the model
+    jobs = []
+    for fi, d in sorted(per_func.items()):
+        pool = []
+        cases = []
+        for (mods, _ans), c in sorted(d.items(), key=lambda kv: repr(kv[0])):
+            for m in mods:
+                if m not in pool:
+                    pool.append(m)
+            cases.append((tuple(pool.index(m) for m in mods), c))
+        for off in range(0, len(cases), 500):
+            jobs.append((fi, pool, call_shapes(FUNCS[fi]), cases[off:off + 500]))
+
+    def work(job):
+        fi, pool, shapes, cases = job
+        pre, terms = coq_order_file(fi, pool, shapes, cases)
+        return coqrun.parse_nat_list(coqrun.coq_eval(pre, terms, name='c18reuse')[0])
+    with concurrent.futures.ThreadPoolExecutor(8) as ex:
+        for job, bad in zip(jobs, ex.map(work, jobs)):
+            fi, pool, shapes, cases = job
+            for i in bad[:5]:
+                p, c = cases[i]
+                rep.corr_break('run_mods/advertised/pok_call vs modifiers applied through reused decorator objects',
+                               describe_order(fi, [pool[j] for j in p]),
+                               'model (adm, hash sig, hash calls) differs', '%s %s' % (c['ans'], c.get('str')))
+    rep.coverage['reuse_model_cases'] = sum(len(j[3]) for j in jobs)
+    return n_eval
+
+
+def _replay_reuse(r):
+    sess = [(fi, tuple(_tuplify(m) for m in ms)) for fi, ms in r['session']]
+    res = run_session(sess)
+    k = len(sess) - 1
+    fd = reuse_finding(sess, k, *res[k])
+    return None if fd is None else '%s: %s' % fd
+
+
 # ----------------------------------------------------------------- fixed scenarios
 def posoargs_self_scenario():
     """posoargs('self', 'a') on a method: decoration and class-level use work,
@@ -1408,7 +1615,9 @@ def posoargs_self_scenario():
 
 def run(ctx, rep):
     rep.rule = ('order: one (function, ordered modifier list) whose run is admissible on the implementation; '
-                'history: one (class kind, operation sequence); sibling: one (derived modifier, operation sequence)')
+                'history: one (class kind, operation sequence); sibling: one (derived modifier, operation sequence); '
+                'reuse: one session = a list of (function, ordered modifier list) applied with decorator objects built once '
+                '(all orders of a set then the first again, one decorator over all functions, mixed sessions)')
     rep.assumptions = [
         'reachability in the heap model abstracts CPython: reclaimed = weakref dead after del + gc.collect()',
         'annotations from different annotate calls agree where they overlap (hypothesis of C18_order)',
@@ -1419,7 +1628,8 @@ def run(ctx, rep):
     e3 = part_sibling(ctx, rep)
     e4 = part_transient(ctx, rep)
     e5 = part_falsy(ctx, rep)
-    rep.evaluations = e1 + e2 + e3 + e4 + e5
+    e6 = part_reuse(ctx, rep)
+    rep.evaluations = e1 + e2 + e3 + e4 + e5 + e6
     msg = posoargs_self_scenario()
     if msg:
         rep.violation('C18:posoargs-self-rebind', msg, {'part': 'posoargs-self'})
@@ -1493,6 +1703,8 @@ def replay(ctx, data):
         return _replay_transient(r)
     if r.get('part') == 'falsy':
         return _replay_falsy(r)
+    if r.get('part') == 'reuse':
+        return _replay_reuse(r)
     if r.get('part') == 'posoargs-self':
         return posoargs_self_scenario()
     return None
